@@ -56,6 +56,18 @@ TARGETS = {
         'QRCode.save': ['C12'], 'QRCodeSequence.save': ['C12'],
     },
 }
+TARGETS_P = {
+    'segno/writers.py': {
+        'write_svg': ['C10', 'C12'], 'write_png': ['C09'], 'write_pdf': ['C10'], 'write_pam': ['C09'], 'write_xpm': ['C09'], 'write_terminal': ['C09'],
+        'write_terminal_compact': ['C09'], 'as_png_data_uri': ['C12'], 'write_ppm': ['C09'], 'write_tex': ['C10'], 'write_eps': ['C10'],
+    },
+    'segno/__init__.py': {
+        'QRCode.svg_inline': ['C12'], 'QRCode.svg_data_uri': ['C12'], 'QRCode.png_data_uri': ['C12'], 'QRCode.terminal': ['C12', 'C09'], 'QRCode.matrix_iter': ['C11'],
+        'QRCode.default_border_size': ['C02'], 'QRCode.is_micro': ['C02'], 'QRCode.mode': ['C02'], 'QRCode.error': ['C02'], 'QRCode.version': ['C02'],
+    },
+    'segno/cli.py': {'parse': ['C14', 'C12'], 'build_config': ['C12'], 'make_code': ['C12', 'C14'], 'main': ['C14', 'C12']},
+    'segno/helpers.py': {'make_epc_qr': ['C16'], 'make_geo': ['C16'], 'make_wifi': ['C16'], 'make_mecard': ['C16'], 'make_vcard': ['C16'], 'make_email': ['C16']},
+}
 CMP = {ast.Lt: ast.LtE, ast.LtE: ast.Lt, ast.Gt: ast.GtE, ast.GtE: ast.Gt, ast.Eq: ast.NotEq, ast.NotEq: ast.Eq}
 
 
@@ -138,6 +150,7 @@ def mutations_of(stmt):
 
 
 def gen(per_function=6, seed=7, prefix='M'):
+    targets = TARGETS_P if prefix == 'P' else TARGETS
     os.makedirs(OUT, exist_ok=True)
     have = set()
     for f in os.listdir(OUT):
@@ -148,7 +161,7 @@ def gen(per_function=6, seed=7, prefix='M'):
             have.add((r['file'], r['line'], r['new']))
     rnd = random.Random(seed)
     n = 0
-    for path, funcs in TARGETS.items():
+    for path, funcs in targets.items():
         src = open(os.path.join(REPO, path)).read()
         lines = src.split('\n')
         tree = ast.parse(src)
